@@ -30,6 +30,15 @@ func checkC02(c *Ctx) {
 			c.Trivial("ERR-FALLTHROUGH", "scan", 0, fmt.Sprintf("%d `v, err := f(); if err != nil` sites, every error branch leaves or the value is not used after it", s2))
 		}
 	}
+	c.Decides("NIL-NIL: no function of the readers and reader entry points returns `nil, err` where the closest test of err says it is nil (an inverted error test hands the caller neither a tree nor an error)")
+	{
+		sites, _ := c.nilNil("NIL-NIL", c.AllFuncs(append([]string{"io/utils"}, readerPkgs...)...), "reading terminates and either reports an error or delivers trees")
+		if sites < 5 {
+			c.Undecided("NIL-NIL", "scan", 0, fmt.Sprintf("only %d `return nil, err` sites seen in the readers", sites))
+		} else {
+			c.Trivial("NIL-NIL", "scan", 0, fmt.Sprintf("%d `return nil, err` sites, all under a failed call", sites))
+		}
+	}
 	c.Decides("TREE-ON-SUCCESS (go/cfg): the Parse function of a reader with a named tree result never returns with a nil error before that result is assigned (the caller always receives a tree or an error)")
 	for _, pk := range []string{"io/newick", "io/nexus", "io/phyloxml", "io/nextstrain"} {
 		c.treeOnSuccess("TREE-ON-SUCCESS", c.Func(pk, "Parser", "Parse"), "reading terminates and either reports an error or delivers trees")
